@@ -11,8 +11,9 @@
    traces logged from the real clients (tools/vloop.py).
 
    Switches (as in Appendix F): [fe] = F-eofspin repaired (an empty read raises),
-   [fc] = F-closerace repaired (CLOSED re-checked after `await self._connect_impl()`).
-   The theorems are about [fe = fc = true]; the refutations for the code as it was use [false].
+   [fc] = F-closerace repaired (CLOSED re-checked after `await self._connect_impl()`),
+   [fl] = F-connect-lost repaired (connect() re-checks for DISCONNECTED before it releases the lock).
+   The theorems are about [fe = fc = fl = true]; the refutations for the code as it was use [false].
 
    Not modelled: `_seed_network_map` (only runs with build_network_map=True; it is a sequence of
    sleeps and `send`s, and `send` IS modelled), more than one `close()` call, the number of frames a
@@ -118,23 +119,25 @@ Definition new_conn (x : g) : g :=       (* self.reader, self.writer = <fresh co
 Definition close_cur_writer (x : g) : g :=
   match writer x with Some w => x <| closed_w := w :: closed_w x |> | None => x end.
 
-(* asyncio.create_task(self._receive_loop()) replacing self._receive_task; releases the lock *)
-Definition start_rx (x : g) : g :=
+(* asyncio.create_task(self._receive_loop()) replacing self._receive_task; then (repaired) the
+   `if self._state == State.DISCONNECTED: create_task(self.connect())` check; releases the lock *)
+Definition start_rx (fl : bool) (x : g) : g :=
   let a := rx_alive x in
-  release (x <| old_creq := if a && rx_creq x then S (old_creq x) else old_creq x |>
-             <| old_live := if a && negb (rx_creq x) then S (old_live x) else old_live x |>
-             <| rx := RCreated |> <| rx_creq := false |>).
+  let y := release (x <| old_creq := if a && rx_creq x then S (old_creq x) else old_creq x |>
+                      <| old_live := if a && negb (rx_creq x) then S (old_live x) else old_live x |>
+                      <| rx := RCreated |> <| rx_creq := false |>) in
+  if fl && cst_eqb (st y) Disc then spawn_connect y else y.
 
 (* connect(): after `await self._update_state(State.CONNECTED)` *)
-Definition post_status (x : g) : g :=
-  if rx_alive x then x <| rx_creq := true |> <| hold := HCancelWait |> else start_rx x.
+Definition post_status (fl : bool) (x : g) : g :=
+  if rx_alive x then x <| rx_creq := true |> <| hold := HCancelWait |> else start_rx fl x.
 
-Definition impl_ok (fc : bool) (y : g) (cb : cbout) : option g :=
+Definition impl_ok (fc fl : bool) (y : g) (cb : cbout) : option g :=
   if fc && is_closed y then
     match cb with CbNone => Some (release (close_cur_writer y)) | _ => None end
   else match upd y Conn cb with
        | None => None
-       | Some z => match cb with CbSusp => Some (z <| hold := HStatusCb |>) | _ => Some (post_status z) end
+       | Some z => match cb with CbSusp => Some (z <| hold := HStatusCb |>) | _ => Some (post_status fl z) end
        end.
 
 (* fault handler shared by _receive_loop and send: `fin` = what the task does after create_task(connect()),
@@ -150,18 +153,22 @@ Definition rx_fault (x : g) (cb : cbout) : option g :=
   fault x cb rx_done (fun z => z <| rx := RInCb |>).
 
 (* what one read attempt may do, per client, given the reader state *)
-Definition ret_ok (k : kind) (fe : bool) (x : g) (b : Z) : bool :=
-  negb (rexc x) &&
+(* [fresh]: the read starts in this block (it checks `self._exception` first); a read that was suspended and is
+   resumed by feed_data() returns its data even if set_exception() came in between *)
+Definition ret_ok (k : kind) (fe fresh : bool) (x : g) (b : Z) : bool :=
+  (negb (rexc x) || negb fresh) &&
   match k with
   | KEByte => (13 <=? buf x) && (b =? buf x - 13)
   | KText => ((0 <=? b) && (b <? buf x)) || (negb fe && eof x && (buf x =? 0) && (b =? 0))
   | KSerial => ((0 <? buf x) && (b =? Z.max 0 (buf x - 100))) || (negb fe && eof x && (buf x =? 0) && (b =? 0))
   end.
-Definition susp_ok (k : kind) (x : g) : bool :=
-  negb (rexc x) && negb (eof x) &&
+(* a resumed read that still lacks data waits again WITHOUT looking at `self._exception` (CPython 3.12 streams.py) *)
+Definition susp_ok (k : kind) (fresh : bool) (x : g) : bool :=
+  (negb (rexc x) || negb fresh) && negb (eof x) &&
   match k with KEByte => buf x <? 13 | KText => true | KSerial => buf x =? 0 end.
-Definition raise_ok (k : kind) (fe : bool) (x : g) (b : Z) : bool :=
-  if rexc x then b =? buf x else
+Definition raise_ok (k : kind) (fe fresh : bool) (x : g) (b : Z) : bool :=
+  (rexc x && (b =? buf x)) ||
+  (negb (rexc x) || negb fresh) &&
   match k with
   | KEByte => (buf x <? 13) && eof x && (b =? 0)
   | KText => (fe && eof x && (buf x =? 0) && (b =? 0)) || ((65536 <? buf x) && (0 <=? b) && (b <=? buf x))
@@ -171,15 +178,15 @@ Definition raise_ok (k : kind) (fe : bool) (x : g) (b : Z) : bool :=
 (* after a `_receive_impl` returned: the `while self._state != State.CLOSED` test *)
 Definition rx_loop_test (x : g) : g := if is_closed x then rx_done x else x <| rx := RRun |>.
 
-Definition rx_iter (k : kind) (fe : bool) (x : g) (o : rxout) : option g :=
+Definition rx_iter (k : kind) (fe fresh : bool) (x : g) (o : rxout) : option g :=
   match o with
-  | RxRet b q' => if ret_ok k fe x b && (q x <=? q') then Some (rx_loop_test (x <| buf := b |> <| q := q' |>)) else None
-  | RxSusp => if susp_ok k x then Some (x <| rx := RWait |>) else None
+  | RxRet b q' => if ret_ok k fe fresh x b && (q x <=? q') then Some (rx_loop_test (x <| buf := b |> <| q := q' |>)) else None
+  | RxSusp => if susp_ok k fresh x then Some (x <| rx := RWait |>) else None
   | RxSleep30 b => match k with
-                   | KEByte => if negb (rexc x) && (13 <=? buf x) && (b =? buf x - 13)
+                   | KEByte => if (negb (rexc x) || negb fresh) && (13 <=? buf x) && (b =? buf x - 13)
                                then Some (x <| buf := b |> <| rx := RSleep30 |>) else None
                    | _ => None end
-  | RxRaise b cb => if raise_ok k fe x b then rx_fault (x <| buf := b |>) cb else None
+  | RxRaise b cb => if raise_ok k fe fresh x b then rx_fault (x <| buf := b |>) cb else None
   end.
 
 (* queue consumer: after the receive callback finished *)
@@ -213,7 +220,7 @@ Definition allowed (x : g) (a : act) : bool :=
 
 Section Model.
 Variable k : kind.
-Variables fe fc : bool.
+Variables fe fc fl : bool.
 
 Definition trans (x : g) (a : act) : option g :=
   if negb (allowed x a) then None else
@@ -234,8 +241,8 @@ Definition trans (x : g) (a : act) : option g :=
       end
   | AImplOk cb =>
       match hold x with
-      | HAwaitImpl _ => impl_ok fc (new_conn x) cb
-      | HAwaitDrain _ => impl_ok fc x cb
+      | HAwaitImpl _ => impl_ok fc fl (new_conn x) cb
+      | HAwaitDrain _ => impl_ok fc fl x cb
       | _ => None
       end
   | AImplFail d =>
@@ -261,8 +268,8 @@ Definition trans (x : g) (a : act) : option g :=
       | HBackoff n => if is_closed x then Some (release x) else Some (start_attempt x (S n))
       | _ => None
       end
-  | AConnCbDone => match hold x with HStatusCb => Some (post_status x) | _ => None end
-  | ACancelWaitDone => match hold x with HCancelWait => Some (start_rx x) | _ => None end
+  | AConnCbDone => match hold x with HStatusCb => Some (post_status fl x) | _ => None end
+  | ACancelWaitDone => match hold x with HCancelWait => Some (start_rx fl x) | _ => None end
   | ARxStart =>
       match rx x with
       | RCreated => if rx_creq x then None else Some (rx_loop_test x)
@@ -270,7 +277,8 @@ Definition trans (x : g) (a : act) : option g :=
       end
   | ARxIter o =>
       match rx x with
-      | RRun | RWait => if rx_creq x then None else rx_iter k fe x o
+      | RRun => if rx_creq x then None else rx_iter k fe true x o
+      | RWait => if rx_creq x then None else rx_iter k fe false x o
       | _ => None
       end
   | ARxSleepDone cb =>
@@ -342,7 +350,8 @@ Fixpoint run (x : g) (ls : list act) : option g :=
   match ls with [] => Some x | a :: t => match trans x a with Some y => run y t | None => None end end.
 
 (* ---- acceptor for logged traces: every label carries what the harness saw after the block ---- *)
-Record snap := mkSnap { s_st : Z; s_lock : bool; s_rx : bool; s_cons : bool; s_wid : Z; s_wclosed : bool; s_q : Z }.
+Record snap := mkSnap { s_st : Z; s_lock : bool; s_rx : bool; s_cons : bool; s_wid : Z; s_wclosed : bool; s_q : Z;
+  s_pc : Z (* connect() coroutines created and not yet started *) }.
 Inductive label := Lab (a : act) (s : snap).
 
 Definition mem_nat (n : nat) (l : list nat) : bool := existsb (Nat.eqb n) l.
@@ -351,7 +360,7 @@ Definition snap_ok (y : g) (s : snap) : bool :=
   Bool.eqb (cons_alive y) (s_cons s) &&
   (match writer y with Some w => Z.of_nat w | None => -1 end =? s_wid s) &&
   Bool.eqb (match writer y with Some w => mem_nat w (closed_w y) | None => false end) (s_wclosed s) &&
-  (q y =? s_q s).
+  (q y =? s_q s) && (Z.of_nat (pending_connects y) =? s_pc s).
 
 Definition step_lab (x : g) (l : label) : option g :=
   let '(Lab a s) := l in
